@@ -130,6 +130,8 @@ def corruptions(seed, donors, lay, every_boundary):
         ("cyclic_include", False, True, b"module inc_cycle_m\ninteger :: before_inc\ninclude 'cyc_a.inc'\nend module inc_cycle_m\n"),
         ("cyclic_include", False, True, b"include 'cyc_self.inc'\n"),
         ("cyclic_include", False, True, b"subroutine inc_first()\ninclude 'cyc_first.inc'\nend subroutine inc_first\n"),
+        # an INCLUDE line that names a file which is nowhere
+        ("include_of_missing_file", False, True, b"module inc_missing_m\ninteger :: before_it\ninclude 'no_such_file_anywhere.inc'\nend module inc_missing_m\n"),
         ("arbitrary_text", False, True, b"Lorem ipsum dolor sit amet,\nconsectetur (adipiscing elit; sed & do\n eiusmod tempor <<< >>> incididunt\n"),
         ("arbitrary_text", False, True, "\n".join("".join(rng.choice("abc xyz()&!'\"=,:;%<>0123") for _ in range(rng.randint(1, 60))) for _ in range(rng.randint(1, 30))).encode()),
         ("ampersand_only", False, True, b"&\n"),
@@ -206,6 +208,13 @@ def named_in_diagnostic(text, name):
     for line in text.splitlines():
         if name in line and re.search(r"(?i)error|warn|skip|fail|invalid|could not|cannot|unable", line):
             return True
+    # a long path is wrapped over several lines of an 80-column log: look at the text with the line breaks taken out
+    sq, nm = re.sub(r"\s+", "", text), re.sub(r"\s+", "", name)
+    i = sq.find(nm)
+    while i >= 0:
+        if re.search(r"(?i)error|warn|skip|fail|invalid|couldnot|cannot|unable", sq[max(0, i - 80): i + len(nm) + 40]):
+            return True
+        i = sq.find(nm, i + 1)
     return False
 
 
@@ -237,6 +246,40 @@ COMPANIONS = {
     "cyc_self.inc": "integer :: again\ninclude 'cyc_self.inc'\n",
     "cyc_first.inc": "include 'cyc_first.inc'\ninteger :: never\n",
 }
+
+
+def many_rejected(arg):
+    """A hundred and fifty files that FORD rejects, read before the valid ones, under a small limit of open files: what the
+    parser holds on to for a rejected file must be released with it."""
+    seed, ref = arg
+    valid, donors, lay = valid_project(seed)
+    root = core.mktemp("vf_c20m_")
+    try:
+        write_tree(root, valid)
+        bad = {}
+        for i in range(150):
+            bad[f"a_many{i:03d}.f90"] = [b"module never_closed_%d\ninteger :: x\n" % i, b"end module nothing_open_%d\n" % i, b"\xff\xfe module u%d\n" % i][i % 3]
+        write_tree(root, bad)
+
+        def child(a):
+            soft, hard = resource.getrlimit(resource.RLIMIT_NOFILE)
+            resource.setrlimit(resource.RLIMIT_NOFILE, (64, hard))
+            return observe_child(a)
+
+        st, r = core.run_alone(child, (root, []), timeout=400)
+        if st != "ok":
+            return {"inconclusive": f"many rejected files: {st} {str(r)[-200:]}", "viol": []}
+        viol = []
+        w0 = {"seed": seed, "rejected_files": len(bad), "open_file_limit": 64}
+        if r["error"]:
+            viol.append({"kf": {"kind": "run_aborted", "phase": phase_of(r["error"]), "exception": r["error"].split(":")[0], "many_rejected_files": True}, "w": {**w0, "error": r["error"]}})
+        else:
+            lost = [f for f in ref["registered"] if f not in r["registered"]]
+            if lost:
+                viol.append({"kf": {"kind": "valid_file_lost", "classes": ["many_rejected_files"]}, "w": {**w0, "lost": lost, "diagnostics": r["diag_tail"][-600:]}})
+        return {"viol": viol, "nrejected": len([b for b in bad if b not in r.get("registered", [])])}
+    finally:
+        shutil.rmtree(root, ignore_errors=True)
 
 
 def write_tree(root, files):
@@ -414,6 +457,9 @@ def main():
         for ci, (cls, must, frn, data) in enumerate(cs):
             pos = prefixes[ci % len(prefixes)]
             tasks.append((s, r, [(f"{pos}_bad{ci}.f90", cls, must, frn, data)]))
+            if ci % 11 == 5:
+                # a long relative path (the diagnostic is longer than a line of an 80-column log)
+                tasks.append((s, r, [(f"zz_a_rather_long_directory_name_for_the_legacy_sources/and_one_more_level_below_it/{pos}_bad{ci}.f90", cls, must, frn, data)]))
             if ci % 7 == 3:
                 # in a sub-directory, under the base name of one of the valid files, read after (zz_) or before (aa_) it
                 tasks.append((s, r, [(f"{rng.choice(['zz_legacy', 'zz_legacy', 'aa_old'])}/{rng.choice(vnames)}", cls, must, frn, data)]))
@@ -422,7 +468,7 @@ def main():
             tasks.append((s, r, [(f"{rng.choice(prefixes)}_bad{ci}.f90", cs[ci][0], cs[ci][1], cs[ci][2], cs[ci][3]) for ci in pick]))
         ncli = 40 if thorough else 10
         for ci in rng.sample(range(len(cs)), min(ncli, len(cs))):
-            nm = f"{rng.choice(prefixes)}_bad{ci}.f90" if rng.random() < 0.75 else f"zz_legacy/{rng.choice(vnames)}"
+            nm = f"{rng.choice(prefixes)}_bad{ci}.f90" if rng.random() < 0.6 else rng.choice([f"zz_legacy/{rng.choice(vnames)}", f"zz_a_rather_long_directory_name_for_the_legacy_sources/and_one_more_level_below_it/q_bad{ci}.f90"])
             cli_tasks.append((s, [(nm, cs[ci][0], cs[ci][1], cs[ci][2], cs[ci][3])]))
         # default settings: files with an upper-case extension are preprocessed (pcpp) before they are read
         bytes_classes = [ci for ci, c in enumerate(cs) if c[0] in ("undecodable_bytes", "utf16_file", "latin1_file", "nul_bytes")]
@@ -449,6 +495,16 @@ def main():
             run.seen("corruption_classes", c)
         for p in r.get("positions", []):
             run.seen("positions", p)
+        for v in r["viol"]:
+            run.violation(v["kf"], v["w"])
+    mtasks = [(s, r) for s, (st, r) in zip(seeds, refs) if st == "ok" and r.get("ok")][: (6 if thorough else 3)]
+    for t, (st, r) in zip(mtasks, core.fork_map(many_rejected, mtasks, per_case_fork=False, case_timeout=500)):
+        if st != "ok" or r.get("inconclusive"):
+            run.inconc(f"many rejected: {st} {str(r)[-200:]}")
+            continue
+        run.case(key=f"many{t[0]}", nontrivial=r.get("nrejected", 0) > 100)
+        run.count("files_skipped", r.get("nrejected", 0))
+        run.count("runs_with_150_rejected_files_under_a_limit_of_64_open_files", 1)
         for v in r["viol"]:
             run.violation(v["kf"], v["w"])
     results = core.fork_map(cli_case, cli_tasks, per_case_fork=False, case_timeout=1300, total_timeout=3000)
